@@ -112,7 +112,7 @@ func vpSplitLines(s string) []string {
 			start = i + 1
 		}
 	}
-	if len(s) > 0 {
+	if start < len(s) {
 		out = append(out, s[start:])
 	}
 	return out
